@@ -79,6 +79,7 @@ VARIABLES
     rdpc, rdloc, rdreq,   \* readers
     reads,                \* ghost: set of completed reads
     cpc, cloc, creq, cn,  \* compactor
+    fin,                  \* set by the single successor of a complete behaviour (generator support)
     hist
 
 wvars   == <<wpc, wloc, wops, wi>>
@@ -86,11 +87,11 @@ seqvars == <<seqpc, seqev, batch>>
 xvars   == <<subs, xpc, xloc, xreq, outClosed, delivered>>
 rvars   == <<retryQ, rpc, rloc>>
 rdvars  == <<rdpc, rdloc, rdreq, reads>>
-cvars   == <<cpc, cloc, creq, cn>>
+cvars   == <<cpc, cloc, creq, cn, fin>>
 store   == <<idx, ver, hver>>
 vars    == <<idx, ver, hver, floor, dealt, committed, slot, wpc, wloc, wops, wi, seqpc, seqev, batch,
              chan, cache, retryQ, rpc, rloc, faults, subs, xpc, xloc, xreq, outClosed,
-             delivered, emitted, kinit, acked, maxRet, rdpc, rdloc, rdreq, reads, cpc, cloc, creq, cn, hist>>
+             delivered, emitted, kinit, acked, maxRet, rdpc, rdloc, rdreq, reads, cpc, cloc, creq, cn, fin, hist>>
 
 MaxRev == Base + OpsPer * Cardinality(Writers) * 2 + 4 + FaultBudget   \* every attempt and every repair gets one
 
@@ -149,6 +150,7 @@ Init ==
     /\ cloc = [c \in Compactors |-> [rev |-> 0, k |-> 0, todo |-> << >>, skip |-> 0, dead |-> FALSE]]
     /\ creq = [c \in Compactors |-> 0]
     /\ cn = [c \in Compactors |-> 0]
+    /\ fin = FALSE
     /\ hist = << >>
 
 -----------------------------------------------------------------------------
@@ -631,7 +633,21 @@ CompactReq(c) ==
          /\ creq' = [creq EXCEPT ![c] = R]
          /\ HF(c, "CompactReq", "start", "", req)
     /\ cn' = [cn EXCEPT ![c] = @ + 1]
-    /\ UNCHANGED <<hver, dealt, committed, slot, wvars, seqvars, chan, cache, rvars, faults, xvars, acked, maxRet, emitted, kinit, rdvars, cpc, cloc>>
+    /\ UNCHANGED <<hver, dealt, committed, slot, wvars, seqvars, chan, cache, rvars, faults, xvars, acked, maxRet, emitted, kinit, rdvars, cpc, cloc, fin>>
+
+Quiescent == WritersDone /\ SeqIdle /\ retryQ = << >> /\ rpc = "idle"
+AllDone0 == /\ Quiescent /\ (Watchers = {} \/ chan = << >>)    \* (nobody consumes chan without watchers)
+           /\ \A w \in Watchers : /\ xpc[w] \in {"running", "refused", "closed"}
+                                  /\ ~subs[w].hasHand /\ subs[w].buf = << >>
+                                  /\ (subs[w].closed => xpc[w] # "running")
+
+AllDone == AllDone0
+
+\* the single successor of a complete behaviour: a generator prints it exactly once
+Finish ==
+    /\ ~fin /\ AllDone0
+    /\ fin' = TRUE
+    /\ UNCHANGED <<store, floor, dealt, committed, slot, wvars, seqvars, chan, cache, rvars, faults, xvars, acked, maxRet, emitted, kinit, rdvars, cpc, cloc, creq, cn, hist>>
 
 -----------------------------------------------------------------------------
 WriterBusy == \E w \in Writers : wpc[w] # "idle"
@@ -644,6 +660,7 @@ Next ==
          \/ (Watchers # {} /\ HubDeliver)
          \/ \E w \in Watchers : WatcherNext(w)
          \/ \E c \in Compactors : CompactReq(c)
+         \/ Finish
 
 Fairness == /\ WF_vars(SeqNext) /\ WF_vars(RetryNext)
             /\ \A w \in Writers : WF_vars(WriterNext(w))
@@ -651,12 +668,6 @@ Spec == Init /\ [][Next]_vars /\ Fairness
 
 -----------------------------------------------------------------------------
 \* PROPERTIES
-
-Quiescent == WritersDone /\ SeqIdle /\ retryQ = << >> /\ rpc = "idle"
-AllDone == /\ Quiescent /\ (Watchers = {} \/ chan = << >>)    \* (nobody consumes chan without watchers)
-           /\ \A w \in Watchers : /\ xpc[w] \in {"running", "refused", "closed"}
-                                  /\ ~subs[w].hasHand /\ subs[w].buf = << >>
-                                  /\ (subs[w].closed => xpc[w] # "running")
 
 \* ---- C01
 IndexAgrees == \A k \in Keys : IndexAgreesK(idx[k], ver[k])
@@ -758,7 +769,7 @@ Final == [idx |-> idx, ver |-> ver, floor |-> floor, committed |-> committed, de
           delivered |-> delivered, xres |-> [w \in Watchers |-> xloc[w].res], closed |-> outClosed,
           retryQ |-> Len(retryQ), emitted |-> emitted]
 Behaviour == [kinit |-> kinit, wops |-> wops, xreq |-> xreq, steps |-> hist, final |-> Final]
-Dump == AllDone => PrintT(<<"BEHAVIOUR", ToJson(Behaviour)>>)
+Dump == fin => PrintT(<<"BEHAVIOUR", ToJson(Behaviour)>>)
 
 View == <<idx, ver, floor, dealt, committed, slot, wpc, wloc, wops, wi, seqpc, seqev, batch, chan, cache,
           retryQ, rpc, rloc, faults, subs, xpc, xloc, xreq, outClosed, delivered, emitted, acked, maxRet>>
